@@ -51,8 +51,8 @@ ASSUMPTIONS = ['the user\'s _evaluate / solve_t_before / solve_t_after modify va
                '`if trace:` raise ValueError only when tracing (reproduced; outside the quantifier; candidate repair in /verif/fixes)',
                'reset=True contents are pinned by K only (the property does not constrain them); the oracle judges reset=False contents',
                't lies inside the span for the twin comparison (outside it trace_t\'s IndexError precedes every check of the base class)',
-               'span = int labels held in a Python list, a NumPy array or a pandas Index (the three lookup routes of _locate_period_in_span); '
-               'labels are distinct',
+               'span = int, str or pandas Period labels held in a Python list, a NumPy array, a pandas Index or PeriodIndex (the lookup routes of '
+               '_locate_period_in_span); one label may be repeated in list and array spans (not in pandas indexes, where get_loc answers with a slice)',
                'reference semantics of Python lists as in TracerNames.v: list(x) allocates a new object, in-place edits change exactly the object edited']
 EXHAUSTIVE = {'quick': False, 'thorough': False}
 CASE_TIMEOUT = 30
@@ -129,7 +129,7 @@ def py_label(x):
     return 'u%d' % x[1] if isinstance(x, list) else x          # ['user', n] -> 'u<n>'; 'start' / 'before' / 'end' / int as they are
 
 
-def _run(m, call, kw):
+def _run(m, call, kw, sk='list'):
     e = call['entry']
     try:
         if e in STATE_OPS:
@@ -140,19 +140,19 @@ def _run(m, call, kw):
             if e == 'trace_t':
                 m.trace_t(call['t'], py_label(call['label']), **tk)
             else:
-                m.trace_period(call['plabel'], py_label(call['label']), **tk)
+                m.trace_period(to_label(sk, call['plabel']), py_label(call['label']), **tk)
             return ['ret', None]
         if e == 'solve_t':
             return ['ret', bool(m.solve_t(call['t'], **kw))]
         if e == 'solve_period':
-            return ['ret', bool(m.solve_period(call['label'], **kw))]
+            return ['ret', bool(m.solve_period(to_label(sk, call['label']), **kw))]
         kws = dict(kw)
         if call.get('start') is not None:
-            kws['start'] = call['start']
+            kws['start'] = to_label(sk, call['start'])
         if call.get('end') is not None:
-            kws['end'] = call['end']
+            kws['end'] = to_label(sk, call['end'])
         labels, indexes, solved = m.solve(**kws)
-        return ['ret', [bool(x) for x in solved], [int(i) for i in indexes], [int(x) for x in labels]]
+        return ['ret', [bool(x) for x in solved], [int(i) for i in indexes], [from_label(sk, x) for x in labels]]
     except Exception as ex:  # the observation: class and class of the chained cause
         c = ex.__cause__
         return ['raise', type(ex).__name__, type(c).__name__ if c is not None else None]
@@ -176,12 +176,15 @@ def impl(case):
         return impl_linker(case)
     if case.get('kind') == 'rx':
         return impl_rx(case)
+    if case.get('kind') == 'dtype':
+        return impl_dtype(case)
     cls = st.make_classes(case['nvars'], case['check'], case['endo'], case.get('lags', 0), case.get('leads', 0), case.get('trace_variables'),
                           aliases=bool(case.get('aliases')), alias_tv=case.get('aliases') == 'tv')
     n = case['n']
-    span = _make_span(case.get('span_kind', 'list'), range(2000, 2000 + n))
-    m = st.instantiate(cls, _make_span(case.get('span_kind', 'list'), span), case['vals'], case['status'], case['iters'], case['scripts'])     # traced instance
-    u = st.instantiate(cls, _make_span(case.get('span_kind', 'list'), span), case['vals'], case['status'], case['iters'], case['scripts'])     # untraced twin
+    sk = case.get('span_kind', 'list')
+    span = _make_span(sk, _labels(case))
+    m = st.instantiate(cls, _make_span(sk, _labels(case)), case['vals'], case['status'], case['iters'], case['scripts'])     # traced instance
+    u = st.instantiate(cls, _make_span(sk, _labels(case)), case['vals'], case['status'], case['iters'], case['scripts'])     # untraced twin
     steps = []
     specs = []
     for call in case['calls']:
@@ -206,8 +209,8 @@ def impl(case):
         ncol = len(m.__dict__['_columns'])
         nkw_m, nkw_u = len(m.__dict__.get('_kwlog', [])), len(u.__dict__.get('_kwlog', []))
         olds = [(t, len(t.index) == 0) for t in m.__dict__['_trace']]
-        out_m = _run(m, call, tkw)
-        out_u = _run(u, call, kw) if call['entry'] not in DIRECT else ['ret', None]
+        out_m = _run(m, call, tkw, sk)
+        out_u = _run(u, call, kw, sk) if call['entry'] not in DIRECT else ['ret', None]
         s = _snapshot(m, case['nvars'])
         s['out'] = out_m
         s['kwlog'] = m.__dict__.get('_kwlog', [])[nkw_m:]
@@ -224,18 +227,54 @@ def impl(case):
     return {'steps': steps, 'names_follow_edits': _names_follow_edits(m, specs)}
 
 
+def _labels(case):
+    """The span's labels as ints (what the Coq model sees).  *_dup kinds repeat one label: period `dup_at` carries the label of
+    the period before it, so its own label 2000 + dup_at names no period and the repeated one names two."""
+    n = case['n']
+    labels = list(range(2000, 2000 + n))
+    if case.get('span_kind', 'list').endswith('_dup') and n >= 2:
+        j = min(max(1, int(case.get('dup_at', 1))), n - 1)
+        labels[j] = labels[j - 1]
+    return labels
+
+
+def to_label(kind, x):
+    """The label object handed to fsic for the int label x."""
+    if kind == 'str':
+        return 'L%d' % x
+    if kind == 'period':
+        import pandas as pd
+        return pd.Period(str(x) if 1 <= x <= 9999 else '1', freq='Y')
+    return int(x)
+
+
+def from_label(kind, obj):
+    if kind == 'str':
+        return int(str(obj)[1:])
+    if kind == 'period':
+        return int(obj.year)
+    return int(obj)
+
+
 def _make_span(kind, labels):
-    """The span object: a Python list (span.index), a NumPy array (fsic's static fallback lookup) or a pandas Index (get_loc)."""
-    if kind == 'array':
+    """The span object: a Python list (span.index), a NumPy array (fsic's static fallback lookup), a pandas Index / PeriodIndex
+    (get_loc); labels are ints, strs ('L2000') or pandas Periods (years); *_dup kinds carry a repeated label."""
+    labels = [int(x) for x in labels]
+    if kind in ('array', 'array_dup'):
         import numpy as np
-        return np.array([int(x) for x in labels])
+        return np.array(labels)
     if kind == 'index':
         import pandas as pd
-        return pd.Index([int(x) for x in labels])
-    return [int(x) for x in labels]
+        return pd.Index(labels)
+    if kind == 'period':
+        import pandas as pd
+        return pd.PeriodIndex([to_label('period', x) for x in labels])
+    if kind == 'str':
+        return [to_label('str', x) for x in labels]
+    return labels
 
 
-SPAN_KIND = {'list': 0, 'array': 1, 'index': 3}
+SPAN_KIND = {'list': 0, 'array': 1, 'index': 3, 'list_dup': 0, 'array_dup': 1, 'str': 0, 'period': 3}
 DIRECT = ('trace_t', 'trace_period')
 STATE_OPS = ('assign', 'copy', 'reindex', 'edit_spec', 'add_variable')          # what a user does between solves
 
@@ -253,6 +292,78 @@ def _state_op(m, call, span):
     if e == 'copy':
         return m.copy()
     return m.reindex(list(span) if isinstance(span, list) else span.copy())             # the same span (a new span object of the same kind)
+
+
+# --------------------------------------------------------------------------- series that are not float64 (oracle only: the Coq model's cells are numbers)
+MIXED_SIG = 'C17|trace_t|mixed-dtype-snapshot'
+OBJECT_SIG = 'C17|trace_t|object-cell-ValueError'
+EXTRA_KINDS = ['str', 'object_list', 'bigint', 'int', 'bool', 'object_scalar', 'float32']
+
+
+def impl_dtype(case):
+    """A scripted traced model (V0, V1: float64) that gets one more variable V2 of another dtype; traced and untraced solve_t."""
+    import numpy as np
+    import scripted_tracer as st
+    n = 3
+    span = list(range(2000, 2000 + n))
+    cls = st.make_classes(2, [0], [0], 0, 0, None)
+    vals = [[lib.fhex(0.25 * (i + 1) + 0.125 * p) for p in range(n)] for i in range(2)]
+    scripts = {'1': {'passes': [[['set', 0, lib.fhex(1.0)]], [['set', 0, lib.fhex(1.5)]], [['set', 0, lib.fhex(1.5)]]]}}
+
+    def build():
+        m = st.instantiate(cls, list(span), vals, ['-'] * n, [-1] * n, scripts)
+        k = case['extra']
+        if k == 'str':
+            m.add_variable('V2', 'abc', dtype=str)
+        elif k == 'object_list':
+            m.add_variable('V2', None, dtype=object)
+            m.V2[1] = [1, 2]
+        elif k == 'object_scalar':
+            m.add_variable('V2', None, dtype=object)
+            m.V2[1] = 'note'
+        elif k == 'bigint':
+            m.add_variable('V2', 2 ** 53 + 1, dtype=int)
+        elif k == 'int':
+            m.add_variable('V2', 3, dtype=int)
+        elif k == 'bool':
+            m.add_variable('V2', True, dtype=bool)
+        else:
+            m.add_variable('V2', 0.1, dtype=np.float32)
+        return m
+    out = {}
+    for side, kw in (('traced', {'trace': py_trace(case['trace'])}), ('twin', {})):
+        m = build()
+        try:
+            r = ['ret', bool(m.solve_t(1, max_iter=10, **kw))]
+        except Exception as ex:
+            r = ['raise', type(ex).__name__]
+        o = {'out': r, 'status': [str(x) for x in m.__dict__['_status']], 'iters': [int(x) for x in m.__dict__['_iterations']],
+             'stored': [np.asarray(m.__dict__['_V%d' % i][1]).tolist() for i in range(3)]}
+        if side == 'traced':
+            tr = m.__dict__['_trace'][1]
+            o['names'] = [st.name_id(x) for x in tr.names]
+            o['labels'] = [x if isinstance(x, str) else int(x) for x in tr.index]
+            o['dtype'] = str(getattr(tr.values, 'dtype', None))
+            o['final'] = tr.values[:, -1].tolist() if getattr(tr.values, 'ndim', 0) == 2 and len(tr.index) else []
+        out[side] = o
+    return {'dt': out}
+
+
+def oracle_dtype(case, obs):
+    fails = []
+    x, u = obs['dt']['traced'], obs['dt']['twin']
+    if any(x[k] != u[k] for k in ('out', 'status', 'iters', 'stored')):
+        sig = OBJECT_SIG if (case['extra'] == 'object_list' and x['out'][0] == 'raise' and x['out'][1] in ('ValueError', 'DimensionError') and u['out'][0] == 'ret') else 'C17|TracerMixin|traced-differs-from-untraced'
+        fails.append({'sig': sig, 'what': 'a model with a %s variable: solve_t(1, trace=%r) gives %s (status %s), without trace= %s (status %s)'
+                      % (case['extra'], py_trace(case['trace']), x['out'], ''.join(x['status']), u['out'], ''.join(u['status']))})
+        return fails
+    if x['out'][0] == 'ret' and x['out'][1]:
+        want = [x['stored'][i] for i in x['names']]
+        # equal as VALUES (3.0 == 3 and 1.0 == True pass; '24.99' != 24.99 and 9007199254740992.0 != 9007199254740993 do not)
+        if len(x['final']) != len(want) or any(isinstance(f_, str) != isinstance(w_, str) or f_ != w_ for f_, w_ in zip(x['final'], want)):
+            fails.append({'sig': MIXED_SIG, 'what': 'a model with a %s variable, trace=%r: the final snapshot %s (array dtype %s) is not the stored solution %s'
+                          % (case['extra'], py_trace(case['trace']), x['final'], x['dtype'], want)})
+    return fails
 
 
 # --------------------------------------------------------------------------- reindex() / copy() of a traced instance
@@ -741,7 +852,7 @@ def c_res(call, out):
 
 
 def c_case17(case, obs):
-    span = lib.clist(lib.cZ(2000 + i) for i in range(case['n']))
+    span = lib.clist(lib.cZ(x) for x in _labels(case))
     tv = case.get('trace_variables')
     cfg = '(mkTCfg %s)' % ('None' if tv is None else '(Some %s)' % lib.clist(lib.cnat(i) for i in tv))
     xs = []
@@ -803,7 +914,7 @@ def c_icase(case, obs):
 
 
 def correspond(cases, obs, tag, tier):
-    main = [i for i, c in enumerate(cases) if c.get('kind') not in ('init', 'linker', 'rx')]
+    main = [i for i, c in enumerate(cases) if c.get('kind') not in ('init', 'linker', 'rx', 'dtype')]
     items = [c_case17(_full(cases[i], obs[i]), obs[i]) for i in main]
     bad, errs = lib.run_coq_cases(tag, PREAMBLE, items, 'bad_indices check_tcase17 0%nat cs', shard=250)
     bad = [main[j] for j in bad]
@@ -830,7 +941,7 @@ def correspond(cases, obs, tag, tier):
     # the names-object model: which list object each freshly created Trace keeps
     aitems, owner = [], []
     for i, (c, o) in enumerate(zip(cases, obs)):
-        if c.get('kind') in ('init', 'linker', 'rx'):
+        if c.get('kind') in ('init', 'linker', 'rx', 'dtype'):
             continue
         for term in c_acases(_full(c, o), o):
             aitems.append(term)
@@ -843,6 +954,8 @@ def correspond(cases, obs, tag, tier):
 
 
 def explain(case, obs):
+    if case.get('kind') == 'dtype':
+        return 'mixed-dtype case: outside the Coq model (its cells are numbers); oracle only'
     if case.get('kind') == 'rx':
         return 'reindex / copy case: model term (check_rxcase) ' + c_rxcase(case, obs)[:3000]
     if case.get('kind') == 'linker':
@@ -851,7 +964,7 @@ def explain(case, obs):
         return lib.coq_eval('explain17', PREAMBLE, 'tracer_init float %s %s %s' % (
             lib.clist(lib.cnat(i) for i in [0, 1] + [2 + i for i in range(case['nvars'])]), lib.cnat(_init_id(case, _init_name(case))), lib.cnat(case['n'])))[-2000:]
     case = _full(case, obs)
-    span = lib.clist(lib.cZ(2000 + i) for i in range(case['n']))
+    span = lib.clist(lib.cZ(x) for x in _labels(case))
     tv = case.get('trace_variables')
     cfg = '(mkTCfg %s)' % ('None' if tv is None else '(Some %s)' % lib.clist(lib.cnat(i) for i in tv))
     return lib.coq_eval('explain17', PREAMBLE, 'run_calls %s %s %s %s %s %s %s (repeat (empty_trace float) %s)' % (
@@ -912,6 +1025,8 @@ def oracle(case, obs):
         return oracle_linker(case, obs)
     if case.get('kind') == 'rx':
         return oracle_rx(case, obs)
+    if case.get('kind') == 'dtype':
+        return oracle_dtype(case, obs)
     if case.get('kind') == 'init':
         return fails            # construction is outside the property's text: the model speaks (K), the oracle has nothing to say
 
@@ -1108,6 +1223,8 @@ def _check_shapes(case, call, ci, s, prev, names, periods, bad):
 def nontrivial(case, obs):
     if case.get('kind') == 'init':
         return False
+    if case.get('kind') == 'dtype':
+        return False
     if case.get('kind') == 'rx':
         return bool(case['first'])
     if case.get('kind') == 'linker':
@@ -1127,6 +1244,8 @@ def nontrivial(case, obs):
 def bucket(case, obs):
     if case.get('kind') == 'init':
         return 'init/' + obs['init'][0]
+    if case.get('kind') == 'dtype':
+        return 'dtype/%s/%s' % (case['extra'], case['trace'][0])
     if case.get('kind') == 'rx':
         return 'rx/%s/first=%s/%s' % (case['via'], case['first'], case['trace'][0])
     if case.get('kind') == 'linker':
@@ -1144,7 +1263,7 @@ def bucket(case, obs):
 def shrink_candidates(case):
     if case.get('kind') == 'init':
         return
-    if case.get('kind') == 'rx':
+    if case.get('kind') in ('rx', 'dtype'):
         return
     if case.get('kind') == 'linker':
         if len(case['calls']) > 1:
@@ -1319,6 +1438,15 @@ def gen(rng, tier):
                         if via == 'copy' and extra:
                             continue
                         cases.append({'kind': 'rx', 'nvars': 2, 'n': n, 'extra': extra, 'via': via, 'first': first, 'trace': a, 'reset': reset})
+    # ---- models with a variable that is not float64 (str, object, int, bool, float32): oracle side only
+    for extra in EXTRA_KINDS:
+        for a in (['flag', True], ['list', [0, 2]], ['name', 2], ['name', 0], ['tuple', [2, 1]]):
+            cases.append({'kind': 'dtype', 'extra': extra, 'trace': a})
+    # ---- t outside the span with min_iter > max_iter (kept finding: IndexError from trace_t precedes the base class's ValueError)
+    for t_ in (4, 7, -5):
+        c = _case()
+        c['calls'] = [{'entry': 'solve_t', 't': t_, 'opts': _opts(min_iter=5, max_iter=1), 'trace': ['flag', True]}]
+        cases.append(c)
     # ---- TracerMixin.__init__: TRACE_NAME free / a variable / 'status' / 'iterations', 0-3 variables, 0-3 periods
     for nv in range(0, 4):
         for n in (0, 1, 3):
@@ -1554,7 +1682,9 @@ def _random_case(rng, scen):
     elif r < 0.18:
         tv = [0, nv + 1]                       # an unknown name in TRACE_VARIABLES
     c = _case(nvars=nv, check=check, endo=endo, n=n, lags=lags, leads=leads, trace_variables=tv)
-    c['span_kind'] = rng.choice(['list'] * 6 + ['array'] * 2 + ['index'] * 2)      # the span object: list.index / the array fallback / pandas get_loc
+    # the span object (list.index / the array fallback / pandas get_loc) and its labels (ints, strs, pandas Periods; a repeated label)
+    c['span_kind'] = rng.choice(['list'] * 6 + ['array'] * 2 + ['index'] * 2 + ['list_dup', 'list_dup', 'array_dup', 'str', 'str', 'period', 'period'])
+    c['dup_at'] = rng.randrange(1, max(2, n))
     if rng.random() < 0.12 and (tv is None or all(i < nv for i in tv)):
         c['aliases'] = 'tv' if tv is not None else True     # AliasMixin stacked under the tracer; trace= and TRACE_VARIABLES use alias names
     palette = sc.PALETTE_FINITE
